@@ -604,7 +604,11 @@ func init() {
 				cases = append(cases, pc)
 				continue
 			}
-			cases = append(cases, c03Random(r, mode, org, true))
+			pc := c03Random(r, mode, org, true)
+			if i%4 == 1 {
+				twinNames(r, &pc.P)
+			}
+			cases = append(cases, pc)
 		}
 		rep.Rule = "programs from the clean pool with labels: (a) systematic `ORG o / MOV r,after / K / after: / DW after,first,$ / MOV r,after / MOV r,$ / Jcc after / ...` for seeded statement kinds K of every pool family, both modes, origins {none,0,0x7c00,0xc200}; " +
 			"(b) random programs of 5-40 statements (instructions of every size class, DB/DW/DD, RESB, ALIGNB, RESB addr-$) with labels at random positions referenced before and after definition; " +
@@ -616,6 +620,39 @@ func init() {
 		}
 		rep.Add(cases, outs)
 	}}
+}
+
+// twinNames renames two labels of a program to names that differ in one character only, `.` or `$` against `_` (all three are
+// ordinary characters of a NASK label name).  The dotted/dollar name goes to a label no branch refers to: gosk at the pinned
+// commit loses a branch to such a name (listed), while MOV/DW/DD/LGDT/EQU uses are fine.
+func twinNames(r *Rand, p *Prog) {
+	branchT := map[string]bool{}
+	var labs, free []string
+	for _, s := range p.Stmts {
+		if s.K == "jmp" && !s.Num {
+			branchT[s.Label] = true
+		}
+		if s.K == "label" {
+			labs = append(labs, s.Label)
+		}
+	}
+	for _, l := range labs {
+		if !branchT[l] {
+			free = append(free, l)
+		}
+	}
+	if len(free) == 0 || len(labs) < 2 {
+		return
+	}
+	a := Pick(r, free)
+	b := Pick(r, labs)
+	for b == a {
+		b = Pick(r, labs)
+	}
+	stem := Pick(r, []string{"rd", "L", "read", "x9"})
+	tail := Pick(r, []string{"k", "retry", "0", "b_c"})
+	m := map[string]string{a: stem + Pick(r, []string{".", "$"}) + tail, b: stem + "_" + tail}
+	p.RenameLabels(m)
 }
 
 // xcheckProg cross-checks the decoder queries made while walking.
